@@ -332,6 +332,14 @@ package text
 //@   ensures fresh(p) && p.Filename == filename && p.Line == line && p.Column == column
 //@   assigns nothing
 
+//@ -- rendering: the file name, line and column go through fixed formats (the file name is an argument, never part
+//@ -- of the format string)
+//@ func (pos Position) String() (r string)
+//@   props C11,C06
+//@   assert_at call:Sprintf#1 [format;C11,C06] lastarg[string](0) == "%s:%d:%d"
+//@   assert_at call:Sprintf#2 [format;C11,C06] lastarg[string](0) == "%d:%d"
+//@   assigns nothing
+
 //@ -- exported views for contracts of other packages
 //@ pure func DataOf(r *Reader) []byte = r.file.data
 //@ pure func CurOf(r *Reader, pos parsley.Pos) int = int(pos) - r.file.offset
